@@ -16,7 +16,7 @@ from .. import memnet, tlc, util
 from .. import sched as S
 from . import c08
 
-MAYCLOSE = {"security", "timeout_idle", "unknown_serializer", "bad_annotations"}
+MAYCLOSE = {"timeout_idle", "unknown_serializer", "bad_annotations"}
 NEEDS_TIMEOUT = {"timeout_mid", "timeout_idle"}
 
 
@@ -267,7 +267,7 @@ def run(ctx):
     memnet.install()
     ctx.rule = ("cases = (ending x tracked resources x untrack x bystander x session instance x failing hook, from Gen_Cleanup) x server type x "
                 "serializer; thorough adds every byte offset of a request as the cut point; distinct_nontrivial = distinct scenarios")
-    ctx.assumptions = ["endings after which the daemon may keep the connection (security error reply, unknown serializer, inconsistent annotation "
+    ctx.assumptions = ["endings after which the daemon may keep the connection (unknown serializer, inconsistent annotation "
                        "chunk, an idle connection under a communication timeout) are judged by what it did: cleanup is required exactly when the server closed the connection; a request left unfinished past the communication timeout must end the connection",
                        "resources are harness objects counting close(); strong references are held by the harness"]
     tlc.mc(ctx, "Daemon", cfg_text=c08.MC_CFG % (c08.SAMPLES[0], ctx.pick(8, 9)))
